@@ -120,6 +120,8 @@ def r16_5_scope(repo: Repo, rep: Report):
             if isinstance(c, ast.Call) and call_name(c) == "SolvingContext":
                 n += 1
                 rep.check("R16.5", m.qual(c) == "solve.FunctionContext.__post_init__", m, c, f"{m.qual(c)}: {src(c)}", "SolvingContext constructed outside FunctionContext.__post_init__ (cores could be shared across tests)")
+                fresh = kwarg(c, "unsat_cores") is None and len(c.args) <= 1 and not any(k.arg is None for k in c.keywords)
+                rep.check("R16.5", fresh, m, c, f"{m.qual(c)}: core store of the new context is its own default list", "the core store is handed in from a longer-lived object: cores (bare z3 term ids) outlive the test that learned them, and a later test whose terms reuse those ids is answered unsat from the cache")
     if n != 1:
         rep.bad("R16.5", repo.mod("solve"), None, f"{n} SolvingContext constructions", "exactly one construction site is expected")
     m, c = repo.cls("solve.SolvingContext")
